@@ -267,7 +267,35 @@ class Check:
                 allok = False
             else:
                 self.obligations.append((t, True, "closed" if not axs else "axioms: " + ",".join(axs)))
+        if allok and self.tier == "thorough":
+            allok = self._coqchk(prop_file) and allok
         return allok
+
+    def _coqchk(self, prop_file):
+        """Thorough tier: re-check the compiled property file and everything it depends on with the independent checker and
+        read its context summary (axioms of every loaded library, type-in-type, unsafe fixpoints, assumed positivity)."""
+        mod = "TLX." + prop_file.replace("/", ".")
+        p = subprocess.run(["timeout", "3000", "coqchk", "-silent", "-o", "-Q", ".", "TLX", mod], cwd=COQ, capture_output=True, text=True)
+        out = p.stdout + "\n" + p.stderr
+        sect = {}
+        cur = None
+        for line in out.splitlines():
+            m = re.match(r"\* (.*?):\s*(.*)$", line.strip())
+            if m:
+                cur = m.group(1)
+                sect[cur] = [m.group(2)] if m.group(2) else []
+            elif cur and line.strip():
+                sect[cur].append(line.strip())
+        axioms = [a for a in sect.get("Axioms", []) if a != "<none>"]
+        unsafe = {k: v for k, v in sect.items() if k.startswith(("Constants/Inductives relying", "Inductives whose positivity")) and v != ["<none>"]}
+        bad_ax = [a for a in axioms if a not in ALLOWED_AXIOMS and a.split(".")[-1] not in ALLOWED_AXIOMS
+                  and ".".join(a.split(".")[-2:]) not in ALLOWED_AXIOMS]
+        ok = p.returncode == 0 and "CONTEXT SUMMARY" in out and not unsafe and not bad_ax
+        self.extra["coqchk"] = {"module": mod, "exit": p.returncode, "axioms_of_all_loaded_libraries": axioms, "unsafe": unsafe}
+        self.obligations.append((f"coqchk {mod}", ok, "independent re-check of the .vo files; axioms: " + (", ".join(axioms) or "none")))
+        if not ok:
+            self.broken.append(("proof", f"coqchk {mod}", (f"unexpected axioms {bad_ax}; " if bad_ax else "") + (f"unsafe {unsafe}; " if unsafe else "") + out[-500:]))
+        return ok
 
     def coq_eval(self, name, text, timeout=600):
         """Compile a generated Cases file (kernel evaluation with vm_compute); returns stdout."""
